@@ -99,7 +99,7 @@ func (b behaviour) String() string {
 		s += []string{"", " (request context already cancelled)", " (handler swaps in a request past its deadline)"}[b.ctxDone]
 	}
 	if b.body {
-		s += []string{"", "(zero-length write)", "(zero-length, then data)", "(two writes)"}[b.bodyKind%4]
+		s += []string{"", "(zero-length write)", "(zero-length, then data)", "(two writes)", "(io.Copy from a reader)", "(io.WriteString)", "(fmt.Fprintf)"}[b.bodyKind%7]
 	}
 	if b.panicKind != pNone {
 		when := "after"
@@ -289,7 +289,15 @@ func handlerFor() httpd.HandlerFunc {
 }
 
 func writeBody(s *httpd.Store, b behaviour) {
-	switch b.bodyKind % 4 {
+	switch b.bodyKind % 7 {
+	case 4:
+		// the body is streamed from a reader (a file, an upstream response): io.Copy looks for faster paths on both
+		// sides before it falls back to Write
+		io.Copy(s.W, io.LimitReader(strings.NewReader("body and more"), 4))
+	case 5:
+		io.WriteString(s.W, "body")
+	case 6:
+		fmt.Fprintf(s.W, "%s", "body")
 	case 0:
 		s.W.Write([]byte("body"))
 	case 1:
@@ -463,7 +471,7 @@ func genBatch(t *rapid.T) *batch {
 		bh.headers = rapid.SampledFrom([]int{0, 0, 0, 1, 2, 3}).Draw(t, "responseHeaders")
 		bh.body = rapid.Bool().Draw(t, "body")
 		if bh.body {
-			bh.bodyKind = rapid.IntRange(0, 3).Draw(t, "bodyKind")
+			bh.bodyKind = rapid.IntRange(0, 6).Draw(t, "bodyKind")
 		}
 		if rapid.IntRange(0, 2).Draw(t, "panics") == 0 {
 			bh.panicKind = rapid.IntRange(1, numPanicKinds-1).Draw(t, "panicKind")
@@ -783,6 +791,10 @@ func TestRealServer(t *testing.T) {
 	behaviours := map[string]behaviour{
 		"0": {}, "1": {status: 201, body: true}, "2": {panicKind: pString, panicBefore: true, pstr: "expected"}, "3": {status: 202, panicKind: pError, pstr: "late"},
 		"4": {body: true, panicKind: pInt, pint: 7}, "8": {body: true, bodyKind: 1, panicKind: pString, pstr: "after an empty write"}, "9": {body: true, bodyKind: 1}, "5": {panicKind: pNil, panicBefore: true}, "6": {status: 503}, "7": {panicKind: pTypedNil},
+		// bodies that reach the connection through io.Copy / io.WriteString / fmt.Fprintf (the real connection offers
+		// io.ReaderFrom and io.StringWriter, which a recorder does not), with and without a panic afterwards
+		"10": {body: true, bodyKind: 4, panicKind: pString, pstr: "after a streamed body"}, "11": {body: true, bodyKind: 4}, "12": {body: true, bodyKind: 5, panicKind: pInt, pint: 3},
+		"13": {body: true, bodyKind: 6, panicKind: pError, pstr: "after Fprintf"}, "14": {status: 206, body: true, bodyKind: 4, panicKind: pString, pstr: "x"},
 	}
 	mux.Handle("/h/:id", httpd.MethodAll, func(s *httpd.Store) {
 		b := behaviours[s.RouteParam("id")]
